@@ -475,10 +475,22 @@ def rt_signature(n: int, ops: list, status: str, detail: str) -> tuple:
     s2, d2 = run_rt(n, ops)
     if s2 != status:
         return None, f'not reproducible: {status} then {s2}', None
+    # greedy minimisation: drop operations while the same failure persists
+    ops = [[k, list(l), list(p)] for k, l, p in ops]
+    changed = True
+    while changed and len(ops) > 1:
+        changed = False
+        for i in range(len(ops)):
+            cand = ops[:i] + ops[i + 1:]
+            s1, d1 = run_rt(n, cand)
+            if s1 == status:
+                ops, detail, changed = cand, d1, True
+                break
     exc = detail.split(':')[0] if 'error' in status else ''
-    for key, loc, params in ops:
-        s1, d1 = run_rt(n, [[key, loc, params]])
-        if s1 == status:
+    if len(ops) == 1:
+        key, loc, params = ops[0]
+        d1 = detail
+        if True:
             name = spelling(key, tuple(loc))
             if status == 'param-precision-lost':
                 rep = {'family': 'rt', 'n': n,
@@ -730,7 +742,7 @@ def guarded_value(text: str, env: dict | None = None) -> float:
                 raise Skip('ln-domain')
             if f == 'sqrt' and x < 0:
                 raise Skip('sqrt-domain')
-            if f == 'tan' and abs(math.cos(x)) < 1e-6:
+            if f == 'tan' and abs(math.cos(x)) < 1e-3:
                 raise Skip('tan-pole')
             try:
                 return chk(_PYF[f](x))
@@ -1204,13 +1216,16 @@ def tr_signature(lib: str, n: int, ops: list, status: str,
     s2, _ = run_tr(lib, n, ops)
     if s2 != status:
         return None, f'not reproducible: {status} then {s2}', None
-    for key, loc, params in ops:
-        s1, d1 = run_tr(lib, n, [[key, loc, params]])
-        if s1 == status:
-            rep = {'family': 'tr', 'lib': lib, 'n': n,
-                   'ops': [[key, list(loc), params]]}
-            return (f'translator-{lib}-{status}:{spelling(key, tuple(loc))}',
-                    f'{key}@{tuple(loc)}: {d1}', rep)
+    ops = [[k, list(l), list(p)] for k, l, p in ops]
+    changed = True
+    while changed and len(ops) > 1:
+        changed = False
+        for i in range(len(ops)):
+            cand = ops[:i] + ops[i + 1:]
+            s1, d1 = run_tr(lib, n, cand)
+            if s1 == status:
+                ops, detail, changed = cand, d1, True
+                break
     names = '+'.join(spelling(k, tuple(l)) for k, l, p in ops)
     rep = {'family': 'tr', 'lib': lib, 'n': n,
            'ops': [[k, list(l), p] for k, l, p in ops]}
